@@ -86,7 +86,11 @@ type Variant struct {
 	BaseFee        int64
 	// Ownerless: the chain's genesis lists a token "gen" (min unit "ugen", max 5, mintable, nothing issued)
 	// without an owner — valid genesis content. Nobody is its current owner, so nobody may edit, mint or hand it over.
-	Ownerless       bool
+	Ownerless bool
+	// Deploy: governance may register an ERC20 contract for an asset that arrived over IBC and has no token record
+	// yet (min unit "ibc/aa"): that creates a token record under the symbol the message names - a symbol that
+	// differs from an issued token's only in its case is another symbol.
+	Deploy          bool
 	Quick, Thorough int
 }
 
@@ -231,6 +235,14 @@ func (d *Driver) Init(e *mc.Env) *mc.State {
 			panic("fixture: update params failed: " + out.String())
 		}
 	}
+	if d.V.Deploy {
+		p := e.Token.GetParams(s.Ctx)
+		p.EnableErc20 = true
+		p.Beacon = "0x00000000000000000000000000000000000000be"
+		if out := s.Deliver(e, "fx-erc20-params", &v1.MsgUpdateParams{Authority: mc.Authority().String(), Params: p}); !out.OK {
+			panic("fixture: erc20 params: " + out.String())
+		}
+	}
 	if d.V.Ownerless {
 		s.Model.(*model).toks["gen"] = &tok{Symbol: "gen", MinUnit: "ugen", Name: "genesis token", Max: 5, Mintable: true, Supply: new(big.Int), IssueFee: new(big.Int)}
 	}
@@ -247,7 +259,23 @@ func (d *Driver) Init(e *mc.Env) *mc.State {
 	return s
 }
 
-func addrOf(a string) string { return mc.Addr(a).String() }
+func addrOf(a string) string {
+	if a == "module" {
+		return mc.ModuleAddr(tokentypes.ModuleName).String()
+	}
+	return mc.Addr(a).String()
+}
+
+const ibcUnit = "ibc/aa"
+
+func (m *model) hasUnit(u string) bool {
+	for _, t := range m.toks {
+		if t.MinUnit == u {
+			return true
+		}
+	}
+	return false
+}
 
 func (d *Driver) Enabled(e *mc.Env, s *mc.State) []mc.Op {
 	m := s.Model.(*model)
@@ -258,6 +286,11 @@ func (d *Driver) Enabled(e *mc.Env, s *mc.State) []mc.Op {
 	for _, sp := range d.V.Issues {
 		for _, a := range d.V.IssueBy {
 			ops = append(ops, mc.Op{Name: fmt.Sprintf("issue(%s,%s)", sp.label(), a), Data: opData{kind: "issue", spec: sp, actor: a}})
+		}
+	}
+	if d.V.Deploy && !m.hasUnit(ibcUnit) {
+		for _, sym := range []string{"ibcx", "tka", "tKa", "tkAA"} {
+			ops = append(ops, mc.Op{Name: fmt.Sprintf("gov:deploy-erc20(%s,symbol=%s)", ibcUnit, sym), Data: opData{kind: "deploy", sym: sym}})
 		}
 	}
 	for _, sym := range sortedKeys(m.toks) {
@@ -538,6 +571,17 @@ func (d *Driver) Apply(e *mc.Env, s *mc.State, op mc.Op) []mc.Finding {
 		}
 		return fs
 
+	case "deploy":
+		out := s.Deliver(e, op.Name, &v1.MsgDeployERC20{Symbol: od.sym, Name: "ibc asset", Scale: 6, MinUnit: ibcUnit, Authority: mc.Authority().String()})
+		if !out.OK {
+			return nil
+		}
+		if m.toks[od.sym] != nil {
+			m.identityBroken = true
+			return append(fs, mc.F("C09/identity-reused/deploy-erc20/symbol", "%s succeeded although symbol %s already names a token", op.Name, od.sym))
+		}
+		m.toks[od.sym] = &tok{Symbol: od.sym, MinUnit: ibcUnit, Name: "ibc asset", Scale: 6, Mintable: true, Owner: "module", Supply: new(big.Int), IssueFee: new(big.Int)}
+		return fs
 	case "transfer":
 		t := m.toks[od.sym]
 		out := s.Deliver(e, op.Name, &v1.MsgTransferTokenOwner{SrcOwner: addrOf(od.actor), DstOwner: addrOf(other(od.actor)), Symbol: od.sym})
